@@ -160,6 +160,45 @@ run_case(const Case &c)
     Gen moved{std::move(tmp)};
     std::printf("ZPURE move %d\n", seq(moved, c.pseed) == base ? 1 : 0);
     std::printf("ZPURE stateless %d\n", seq(g, c.pseed) == base ? 1 : 0);
+    // construction history: the same parameters after other generators were built on this thread (sharing the
+    // bounds / the skew / the bin count with it), and on a fresh thread
+    {
+      auto same_cdf = [&](const Gen &h) {
+        for (auto k : c.ks) {
+          if (k < 0 || static_cast<unsigned __int128>(k) >= n128) continue;
+          if (bits(h.GetCDF(static_cast<Int>(k))) != bits(g.GetCDF(static_cast<Int>(k)))) return false;
+        }
+        return true;
+      };
+      bool ok = true;
+      const Int one = static_cast<Int>(1);
+      auto decoy = [&](Int lo, Int hi, double al) {
+        if (hi < lo) return;
+        try {
+          const Gen d{lo, hi, al};
+          (void)d;
+        } catch (const std::exception &) {
+        }
+      };
+      if (n >= 3 && n <= 4000000ULL) {
+        decoy(static_cast<Int>(mn + one), mx, alpha);                    // same max and skew, other min
+        decoy(mn, static_cast<Int>(mx - one), alpha);                    // same min and skew, other max
+        decoy(mn, mx, alpha + 0.25);                                     // same bounds, other skew
+        decoy(static_cast<Int>(mn + static_cast<Int>(n / 2)), mx, alpha);
+        const Gen g3{mn, mx, alpha};
+        ok = ok && same_cdf(g3) && seq(g3, c.pseed) == base;
+        decoy(static_cast<Int>(mn + one), mx, alpha);
+        bool fresh_ok = true;
+        std::thread t{[&] {
+          const Gen g4{mn, mx, alpha};
+          fresh_ok = same_cdf(g4) && seq(g4, c.pseed) == base;
+        }};
+        t.join();
+        const Gen g5{mn, mx, alpha};
+        ok = ok && fresh_ok && same_cdf(g5);
+      }
+      std::printf("ZPURE history %d\n", ok ? 1 : 0);
+    }
     bool in_range = true;
     for (auto v : base) in_range = in_range && !(v < mn) && !(mx < v);
     std::printf("ZPURE in_range %d\n", in_range ? 1 : 0);
